@@ -21,11 +21,11 @@ import (
 
 // c02split is a deterministic splitter: a pure function of (mode, seed, call number).
 type c02split struct {
-	mode        string
-	seed        uint64
-	calls       int
-	headerCuts  int // cuts that fell strictly inside the first 22 bytes of a message
-	totalCuts   int
+	mode       string
+	seed       uint64
+	calls      int
+	headerCuts int // cuts that fell strictly inside the first 22 bytes of a message
+	totalCuts  int
 }
 
 func (s *c02split) next() uint64 {
@@ -107,11 +107,11 @@ type c02op struct {
 }
 
 type c02session struct {
-	Flow      string
-	Login     string
-	Phase0    int // how many ops of the first control batch are sent together with handshake + login
-	Ops       []c02op
-	Name      []byte
+	Flow   string
+	Login  string
+	Phase0 int // how many ops of the first control batch are sent together with handshake + login
+	Ops    []c02op
+	Name   []byte
 }
 
 func c02genSession(rt *rapid.T) c02session {
